@@ -4,6 +4,8 @@ CONSTANTS
   Classes = {1, 3, 5, 6, 8, 9}
   Orig = FALSE
   RunCut = TRUE
+  OwnBreaks = TRUE
 SPECIFICATION Spec
 INVARIANT RLAgrees
+INVARIANT DrawAgrees
 CHECK_DEADLOCK FALSE
